@@ -168,9 +168,9 @@ impl State {
               self.prio[last] = self.prio.iter().min().copied().unwrap_or(1).saturating_sub(1);
               self.spin_run = 0;
             }
-          } else {
-            self.spin_run = 0;
           }
+          // (not reset by the spinner's own non-spin steps: a `loop { load; spin_loop() }` wait
+          // alternates both kinds; the count restarts when another thread gets to run, see below)
         }
         if self.change_points.contains(&self.steps) {
           // demote the currently highest-priority eligible thread
@@ -182,6 +182,9 @@ impl State {
       }
       _ => el[(xorshift(&mut self.rng) % el.len() as u64) as usize],
     };
+    if self.choices.last() != Some(&c) {
+      self.spin_run = 0;
+    }
     self.choices.push(c);
     Some(c)
   }
@@ -599,6 +602,14 @@ pub fn block_on<F: std::future::Future>(fut: F) -> F::Output {
       verif::Parker::park();
     }
   }
+}
+
+/// A pure scheduling point for harness code (e.g. between polling a future and dropping it):
+/// a self-unpark followed by a park that consumes the token, both of which yield to the scheduler.
+pub fn yield_point() {
+  let p = verif::Parker::current();
+  p.unpark();
+  verif::Parker::park();
 }
 
 pub fn ord_name(o: Option<std::sync::atomic::Ordering>) -> &'static str {
